@@ -19,10 +19,11 @@ def _apply_deserialize(it, c, fi, args, kwargs):
     data = args[-1]
     if isinstance(data, VBytes) and data.conc is None:
         origins = getattr(it, "enc_origins", {})
-        if data.e.sexpr() in origins:
+        k = cbor.okey(data.e)
+        if k in origins:
             it.used_stubs.add("cbor2.loads")
             it.trace.append(("call", c.func, {"cbstr": data}, None))
-            return cbor.decoded_copy(origins[data.e.sexpr()])
+            return cbor.decoded_copy(origins[k])
     # anything else: execute the body (validate + loads) itself
     return it.call_function(fi, args, kwargs, force_inline=True)
 
